@@ -19,9 +19,12 @@ def run(rep, tier, seed, replay):
                        "modelled not verified: the kernel's stat(); the hash check itself is C09's check_exact (pieces in the "
                        "hashing ranges get their real verdict, the others keep the loaded bit); bencode Object typing as the "
                        "abstract resume record (map / list / value / string distinctions only)",
-                       "NOT tied by the correspondence yet: resume_save_progress's per-file mtime choice, "
-                       "resume_save_uncertain_pieces and TransferList retention are modelled (Model.v saved_mtime, "
-                       "uncertain_saved, hash_succeeded) and used in theorems, but only the T cases (oracle) run the real save",
+                       "T cases: a real session history (scripted seeder delivers the missing pieces, virtual time, stop, close + "
+                       "reopen), the real resume_save_progress + resume_save_uncertain_pieces, crash (loss set, perturbations), "
+                       "real load + check; the saved object (per-file mtime class, bitfield form, uncertain list) and the result "
+                       "are compared with the model (saved_mtime, uncertain_saved, hash_succeeded, load, check); real mtimes are "
+                       "compared as classes (real / ~0 / ~1 / ~2 / ~3), the 60-minute pruning of the completed list is modelled "
+                       "but not reached by the generated histories",
                        "python property oracle gen/c10.py:oracle (bits vs OpenSSL verdict over the files; genuineness of a case)"]))
     model = ltv.build_model("C10")
     impl = ltv.build_harness("c10", ["c10.cc", "common/session.cc"])
@@ -41,9 +44,8 @@ def run(rep, tier, seed, replay):
         viol = G.oracle(case, full)
         if case.startswith("T "):
             outcomes["T"] += 1
-            for kl, text in viol:
-                rep.violation(text, case=case, model=m, impl=full, theorem="property oracle C10 (two lifetimes)", klass=kl)
-            continue
+            if " unc=" in o and " unc=none" not in o:
+                nontrivial.add(hashlib.sha1(case.encode()).digest())
         for k in ("Ignored", "Loaded", "Threw"):
             if o.startswith("out=" + k):
                 outcomes[k] += 1
@@ -70,9 +72,9 @@ def run(rep, tier, seed, replay):
             theorem="coq/C10/Properties.v", found_input=False)
     rep.cov.update(evaluations=len(cases), distinct_nontrivial=len(nontrivial),
                    rule="cases = corpus + hand list + honest resume objects + malformed resume objects (L, model compared) + "
-                        "two real lifetimes (T, oracle only); non-trivial = distinct L case that loads, requests a recheck of some "
+                        "two real lifetimes with a session history (T, model compared incl. the saved object); non-trivial = distinct L case that loads, requests a recheck of some "
                         "piece and ends with some piece set",
                    samples=samples, input_distribution=stats, mismatches=mism, outcomes=outcomes, exhaustive=False)
     rep.assumptions += ["files are readable regular files or absent (C09 covers the other disk states)",
                         "a rewritten file changes size or mtime (seconds) unless the case says otherwise",
-                        "no padding files"]
+                        "padding files only in L cases"]
